@@ -163,7 +163,11 @@ where
         let label = format!("c07sched kind={} scenario={s} seed={} shard={}", K::NAME, ctx.seed, ctx.shard);
         println!("@@{{\"t\":\"case\",\"case\":{}}}", crate::ctx::json_str(&label));
         for k in 0..schedules {
-            let strat = Strategy::Random { seed: rng.next(), inv_p: [2, 4, 16, 64][k % 4] };
+            let strat = if k % 3 == 2 {
+                Strategy::Pct { seed: rng.next(), depth: 1 + (k % 4) as u32, est_len: 4000 }
+            } else {
+                Strategy::Random { seed: rng.next(), inv_p: [2, 4, 16, 64][k % 4] }
+            };
             if let Some(o) = run_scenario::<K>(ctx, &sc, Some(strat), &label) {
                 ctx.distinct((K::NAME, o.signature));
                 ctx.count("schedules", 1);
@@ -178,8 +182,8 @@ where
 /// seeded random schedules at the instrumented yield points
 pub fn sched_random(ctx: &mut Ctx) {
     let mut rng = ctx.rng(0xC07);
-    let scenarios = ctx.by_tier(3, 25);
-    let schedules = ctx.by_tier(12, 60);
+    let scenarios = ctx.by_tier(8, 40);
+    let schedules = ctx.by_tier(24, 100);
     sched_random_kind::<Bdd>(ctx, &mut rng, scenarios, schedules);
     sched_random_kind::<Bcdd>(ctx, &mut rng, scenarios, schedules);
     sched_random_kind::<Zbdd>(ctx, &mut rng, scenarios, schedules);
@@ -248,8 +252,8 @@ where
 
 pub fn sched_dfs(ctx: &mut Ctx) {
     let mut rng = ctx.rng(0xC07_D);
-    let scenarios = ctx.by_tier(1, 6);
-    let budget = ctx.by_tier(1500, 40_000);
+    let scenarios = ctx.by_tier(2, 6);
+    let budget = ctx.by_tier(3000, 40_000);
     let bound = ctx.by_tier(1, 2);
     match ctx.shard % 3 {
         0 => sched_dfs_kind::<Bdd>(ctx, &mut rng, scenarios, bound, budget),
@@ -289,11 +293,11 @@ where
 
 pub fn stress(ctx: &mut Ctx) {
     let mut rng = ctx.rng(0xC07_5);
-    let rounds = ctx.by_tier(6, 60);
+    let rounds = ctx.by_tier(12, 100);
     stress_kind::<Bdd>(ctx, &mut rng, rounds, false);
     stress_kind::<Bcdd>(ctx, &mut rng, rounds, false);
     stress_kind::<Zbdd>(ctx, &mut rng, rounds, false);
-    let big = ctx.by_tier(1, 6);
+    let big = ctx.by_tier(2, 10);
     stress_kind::<Bdd>(ctx, &mut rng, big, true);
     stress_kind::<Bcdd>(ctx, &mut rng, big, true);
     stress_kind::<Zbdd>(ctx, &mut rng, big, true);
